@@ -319,6 +319,17 @@ func solve(q Query, timeout time.Duration) SolverRes {
 			if pf, dropped := pruneFacts(q.Facts, q.Goal); dropped {
 				sets = append(sets, factSet{"prq", pf, false})
 			}
+			// quantifier-free facts only (cone of influence of the goal): many goals do not need the quantified invariants
+			var qf []*Term
+			for _, f := range q.Facts {
+				if _, _, _, qq := featureScan([]*Term{f}); !qq {
+					qf = append(qf, f)
+				}
+			}
+			if len(qf) < len(q.Facts) {
+				cf, _ := coiFacts(qf, q.Goal)
+				sets = append(sets, factSet{"qf", cf, false})
+			}
 		}
 		{
 			// strict: only the quantifier-free facts that talk exclusively about symbols of the goal
@@ -476,7 +487,7 @@ func solve(q Query, timeout time.Duration) SolverRes {
 			}
 		default:
 			base := 1
-			if fs.label == "coi" || fs.label == "prq" || fs.label == "strict" || len(sets) == 1 {
+			if fs.label == "coi" || fs.label == "prq" || fs.label == "strict" || fs.label == "qf" || len(sets) == 1 {
 				base = 0
 			}
 			if fs.label == "nodef" {
